@@ -128,6 +128,12 @@ class C16(Driver):
                         steps.append({"op": "drain", "n": r.choice([10, 1024, 4096, 65536]) if mode == "single" else r.choice([64, 1024, 4096])})
                     elif r.random() < 0.3 and mode == "single":
                         steps.append({"op": "close"})
+                        if kind == "unix":
+                            # the writer then reads from its own end: a peer that closed with unread input is a
+                            # reset (error), not a clean end of stream
+                            for wt in tasks:
+                                if wt["role"] == "w" and wt["sd"] == s and not wt.get("shut"):
+                                    wt["ack"] = True
                 tasks.append({"id": tid, "role": "r", "sd": s, "steps": steps})
                 tid += 1
             if kind in CHILD:
@@ -290,6 +296,8 @@ class C16(Driver):
                         A("  (try (do (def b (sim/fill %d off %d)) (ev/write h %s) (buffer/fill b 0) (+= off %d) (sim/ev :ret %d %d :ok)) ([e] (sim/ev :ret %d %d :err e)))"
                           % (t["w"], st["n"], conv, st["n"], T, k, T, k))
                 A("  (put wdone %d true)" % T)
+                if t.get("ack"):
+                    A("  (sim/ev :inv %d 902) (try (let [b (ev/read h 10)] (sim/ev :ret %d 902 (if b :data :nil))) ([e] (sim/ev :ret %d 902 :err e)))" % (T, T, T))
                 if t.get("close") and t.get("shut"):
                     A("  (sim/ev :inv %d 900) (net/shutdown h :%s) (sim/ev :ret %d 900 :closed)" % (T, t["shut"], T))
                     if t.get("write_after"):
@@ -616,6 +624,40 @@ class C16(Driver):
                         V("C16/child/exit-status-misreported/kind=%s" % kind, "expected %r got %r" % (expect, got))
                 elif r_[1][0] == ":err":
                     V("C16/child/proc-wait-raised/kind=%s" % kind, " ".join(r_[1]))
+        # ---- a peer that closed while input for it was still unread: the other end sees a reset, not end of stream ----
+        for t in tasks.values():
+            if t["role"] != "w" or not t.get("ack") or (t["id"], 902) not in ret:
+                continue
+            s_ = t["sd"]
+            rclose = None
+            consumed_before = 0
+            for t2 in tasks.values():
+                if t2["role"] != "r" or t2["sd"] != s_:
+                    continue
+                for k2, st2 in enumerate(t2["steps"]):
+                    r2 = ret.get((t2["id"], k2))
+                    if r2 is None:
+                        continue
+                    if st2["op"] == "close":
+                        rclose = r2[0]
+                    elif r2[1][0] in (":data", ":drained") and (rclose is None or r2[0] < rclose):
+                        consumed_before += int(r2[1][1])
+            if rclose is None:
+                continue
+            written_before = 0
+            werr_any = False
+            for k, st in enumerate(t["steps"]):
+                if st["op"] != "write":
+                    continue
+                r_ = ret.get((t["id"], k))
+                if r_ is not None and r_[1][0] == ":ok" and r_[0] < rclose:
+                    written_before += st["n"]
+                elif r_ is not None and r_[1][0] != ":ok":
+                    werr_any = True
+            ack = ret[(t["id"], 902)]
+            if written_before > consumed_before and not werr_any and ack[0] > rclose and ack[1][0] == ":nil":
+                V("C16/reset/peer-closed-with-unread-input-reported-as-clean-end-of-stream",
+                  "%d bytes written and acknowledged, %d read before the peer closed; the writer's read returned nil" % (written_before, consumed_before))
         # ---- half-closed sockets: a write after net/shutdown fails, it neither succeeds nor hangs ----
         for t in tasks.values():
             if t["role"] == "w" and t.get("shut") and t.get("write_after") and (t["id"], 901) in inv:
